@@ -201,6 +201,7 @@ def step (st : St) : List String → St × String
     let i := Cartesian.cellIndices g ⟨flt! px, flt! py, flt! pz⟩
     let inr := decide (0 ≤ i.x ∧ i.x < g.n.x ∧ 0 ≤ i.y ∧ i.y < g.n.y ∧ 0 ≤ i.z ∧ i.z < g.n.z)
     let inrS := if inr then "in-range" else "out-of-range"
+    if !inr then (st, s!"cart loc out-of-range {i.x} {i.y} {i.z} #cart-out-of-range") else
     (st, s!"cart loc {i.x} {i.y} {i.z} {Cartesian.longIndex g.n i} {Ca.showB (Cartesian.cellBox g i)} #cart-{inrS}")
   | ["cart", "ngb", l] =>
     let g := st.cart
